@@ -579,6 +579,12 @@ func (r *lifeRun) judgeStates() {
 			if rec.rejected == 429 || rec.rejected == 503 || strings.HasPrefix(sent, "HTTP/1.1 429") || strings.HasPrefix(sent, "HTTP/1.1 503") {
 				continue
 			}
+			if sent == "" && rec.client.Peer().WritesRefused() > 0 && (r.p.MaxPerIP > 0 || r.p.Concurrency > 0) {
+				// the rejection was written after the client had given up (a slow accept loop):
+				// nothing on the wire, and rightly no hook calls for a connection never admitted
+				e.Probe("rejected-after-client-left")
+				continue
+			}
 			e.Violation("no-calls/"+r.p.Mode, "conn %d (%s): the ConnState hook was never called (responses %v)", i, rec.addr, rec.resps)
 			return
 		}
